@@ -11,6 +11,29 @@ let show = function
   | FValue (l, v) -> (match l with LLocal -> "local" | LModule -> "module" | LImport -> "import" | LContext -> "context" | LBuiltin -> "builtin") ^ " " ^ string_of_int (int_of_n v)
   | FUndefined -> "undefined" | FNameError -> "nameerror"
 
+(* ids|parent: 7 lists each "n x*" (declared undeclared locally_declared locally_assigned argument_declared topleveldefs closuredefs)|mode t / b0 / b1|nodes
+   node: k nu u* nd d* (check) ; c nu u* nd d* (code) ; p na a* nu u* nd d* ; D root name na a* nu u* nb node* ; B hasname name na a* nu u* nb node* ;
+         C nu u* na a* nb node* ; N nb node*
+   -> the seven lists of the resulting ids and to_write, separated by / *)
+let toks = ref []
+let next () = match !toks with t :: r -> toks := r; t | [] -> failwith "eof"
+let num () = int_of_string (next ())
+let nn () = n_of_int (num ())
+let rec times k f = if k <= 0 then [] else let x = f () in x :: times (k - 1) f
+let names () = let k = num () in times k nn
+let rec tnode () =
+  match next () with
+  | "k" -> let u = names () in let d = names () in TCheck (u, d)
+  | "c" -> let u = names () in let d = names () in TCode (u, d)
+  | "p" -> let a = names () in let u = names () in let d = names () in TPage (a, u, d)
+  | "D" -> let root = (num () = 1) in let name = nn () in let a = names () in let u = names () in let nb = num () in TDef (root, name, a, u, times nb tnode)
+  | "B" -> let has = (num () = 1) in let name = nn () in let a = names () in let u = names () in let nb = num () in
+    TBlock (has, name, a, u, times nb tnode)
+  | "C" -> let u = names () in let a = names () in let nb = num () in TCall (u, a, times nb tnode)
+  | "N" -> let nb = num () in TNamespace (times nb tnode)
+  | t -> failwith ("tnode " ^ t)
+let show_names l = String.concat " " (List.map (fun x -> string_of_int (int_of_n x)) l)
+
 let handle line =
   match fields line with
   | ["resolve"; strict; lo; mo; im; cx; bi; x] ->
@@ -21,6 +44,18 @@ let handle line =
         | ["D"; x] -> BCallDef (n_of_int (int_of_string x))
         | _ -> failwith "stmt") (List.filter (fun t -> String.trim t <> "") (String.split_on_char ';' stmts)) in
     String.concat ";" (List.map show (run_body (new_context (kvs args) (kvs extras)) (kvs ml) (kvs bi) st))
+  | ["ids"; parent; mode; nodes] ->
+    toks := List.filter (fun t -> t <> "") (String.split_on_char ' ' parent);
+    let d = names () in let u = names () in let ld = names () in let la = names () in let ad = names () in let td = names () in let cd = names () in
+    let p = { declared = d; undeclared = u; locally_declared = ld; locally_assigned = la; argument_declared = ad; topleveldefs = td; closuredefs = cd } in
+    toks := List.filter (fun t -> t <> "") (String.split_on_char ' ' nodes);
+    let k = num () in let ns = times k tnode in
+    let r = (match mode, ns with
+        | "t", _ -> branch_template p ns
+        | "b0", [n] -> branch p false n
+        | "b1", [n] -> branch p true n
+        | _ -> failwith "mode") in
+    String.concat "/" (List.map show_names [r.declared; r.undeclared; r.locally_declared; r.locally_assigned; r.argument_declared; r.topleveldefs; r.closuredefs; to_write r])
   | ["conflict"; el; names] ->
     if conflict (el = "1") (List.map str_of_field (List.filter (fun t -> String.trim t <> "") (String.split_on_char ';' names))) then "1" else "0"
   | _ -> "!badrequest"
